@@ -9,7 +9,7 @@ import (
 func init() { register("C08", propC08) }
 
 func propC08(c *Ctx) {
-	c.Explanation = "Decides structural necessary conditions of IPv4 reassembly for all inputs and schedules: (F1) Fragmentation.{reassemblers,rList,size} and reassembler.{holes,deleted,heap,done,size} are accessed only under their mutexes and lookup-or-create of the reassembler is one critical section; (F2) a fragment is stored only when it filled part of a hole, the datagram is handed up (done) only when every hole is deleted and the heap reassembled without error, and a failed reassembly drops the datagram instead of panicking; (F3) an existing reassembler is reused only when it is not older than the timeout; (F4) the reassembly key is computed from all four of identification, protocol, source and destination, and ipv4.HandlePacket passes first = fragment offset, last = offset + payload size - 1, more = MF bit, taking the fragment path exactly when MF is set or the offset is non-zero; (F5) memory accounting moves with the stored bytes; (F6) RFC 815 hole bookkeeping in updateHoles: the exact site table (which hole is deleted under which overlap condition, which remainder holes are created with which bounds) and (F7) reassemble: fragments are merged in heap (offset) order, every popped fragment is either appended (after trimming exactly the overlap size-offset) or the whole reassembly fails on a gap - no fragment is skipped. (F9) link typestate of the reassembler list; F6 also tables the reassembler's initial hole 0..65535. (F10) the fragment heap's container/heap implementation over the fragment offset. NOT decided: the algebra of the hole list over all fragment sequences (that the bookkeeping is sufficient), 32-bit key collisions between datagrams."
+	c.Explanation = "Decides structural necessary conditions of IPv4 reassembly for all inputs and schedules: (F1) Fragmentation.{reassemblers,rList,size} and reassembler.{holes,deleted,heap,done,size} are accessed only under their mutexes and lookup-or-create of the reassembler is one critical section; (F2) a fragment is stored only when it filled part of a hole, the datagram is handed up (done) only when every hole is deleted and the heap reassembled without error, and a failed reassembly drops the datagram instead of panicking; (F3) an existing reassembler is reused only when it is not older than the timeout; (F4) the reassembly key is computed from all four of identification, protocol, source and destination, and ipv4.HandlePacket passes first = fragment offset, last = offset + payload size - 1, more = MF bit, taking the fragment path exactly when MF is set or the offset is non-zero; (F5) memory accounting moves with the stored bytes; (F6) RFC 815 hole bookkeeping in updateHoles: the exact site table (which hole is deleted under which overlap condition, which remainder holes are created with which bounds) and (F7) reassemble: fragments are merged in heap (offset) order, every popped fragment is either appended (after trimming exactly the overlap size-offset) or the whole reassembly fails on a gap - no fragment is skipped. (F9) link typestate of the reassembler list; F6 also tables the reassembler's initial hole 0..65535. (F10) the fragment heap's container/heap implementation over the fragment offset. (F11) the reassembler LRU list is a correct doubly-linked list; F4 also requires Hash3Words to depend on all three key words; F2 tables tooOld. NOT decided: the algebra of the hole list over all fragment sequences (that the bookkeeping is sufficient), 32-bit key collisions between datagrams."
 	c.Assumptions = []string{"container/heap orders by fragHeap.Less", "reassembler.size is only read by release after checkDoneOrMark, which is a barrier on reassembler.mu (exception with reason)"}
 	fr := "(*fragmentation.reassembler)."
 	f1 := c.Rule("F1", "K4 lockset", "fragmentation state only under its mutexes", 30)
@@ -123,39 +123,7 @@ func propC08(c *Ctx) {
 
 	f4 := c.Rule("F4", "K5", "key from id, protocol, source, destination; first/last/more from the header", 6)
 	fragmentKeyRule(c, f4)
-	if fn := c.Fn(f4, "(*ipv4.endpoint).HandlePacket"); fn != nil {
-		m := map[string]string{"VV": "$2", "VVP": "new(buffer.VectorisedView)@3", "VVR": "new(buffer.VectorisedView)@u", "H": "buffer.VectorisedView.First({VV})", "OFF": "header.IPv4.FragmentOffset({H})", "MF": "(1 & header.IPv4.Flags({H}))", "VALID": "header.IPv4.IsValid({H}, buffer.VectorisedView.Size({VV}))"}
-		c.CheckSites(f4, fn, []SiteSpec{
-			{Kind: "call", Target: "(*fragmentation.Fragmentation).Process", Args: sub(m, "$0.fragmentation", "hash.IPv4FragmentHash({H})", "{OFF}", "((buffer.VectorisedView.Size({VVP}) + {OFF}) - 1)", "({MF} != 0)", "{VVP}"), Guards: sub(m, "{VALID}"), N: 1, Why: "first = fragment offset, last = offset + size - 1, more = MF bit, key from this header"},
-			{Kind: "call", Target: "(*buffer.VectorisedView).TrimFront", Args: sub(m, "&new(buffer.VectorisedView)", "header.IPv4.HeaderLength({H})"), Guards: sub(m, "{VALID}"), N: 1, Why: "IP header removed (header length) after validation"},
-			{Kind: "call", Target: "(*buffer.VectorisedView).CapLength", Args: sub(m, "&new(buffer.VectorisedView)", "(header.IPv4.TotalLength({H}) - header.IPv4.HeaderLength({H}))"), Guards: sub(m, "{VALID}"), N: 1, Why: "payload capped to total length - header length"},
-			{Kind: "call", Target: "iface:stack.TransportDispatcher.DeliverTransportPacket", Args: sub(m, "$0.dispatcher", "$1", "header.IPv4.TransportProtocol({H})", "{VVR}"), Guards: sub(m, "{VALID}"), N: 1, Why: "delivery of the (possibly reassembled) payload"},
-		})
-		for _, pc := range c.Calls(fn, Is("(*fragmentation.Fragmentation).Process"), false) {
-			// fragment path exactly when MF set or offset != 0
-			ok := GuardedBy(fn, pc.Block(), AnyOf(AtomIs(false, Exactly(sub(m, "({MF} == 0)")[0])), AtomIs(false, Exactly(sub(m, "(0 == {OFF})")[0]))))
-			c.Check(ok, f4, FuncName(fn)+"/fragment-detection", c.pos(pc), "reassembly path taken only when MF!=0 or offset!=0", "reassembly path not guarded by MF!=0 || offset!=0")
-			// and delivery of a fragment only after ready
-			for _, dc := range c.Calls(fn, Is("iface:stack.TransportDispatcher.DeliverTransportPacket", "(*ipv4.endpoint).handleICMP"), false) {
-				ok := ReachAvoiding(fn, pc.(ssa.Instruction), nil, func(in ssa.Instruction) bool { return in == dc.(ssa.Instruction) }) != nil
-				_ = ok
-			}
-			// on the fragment path a not-ready result returns without delivering
-			bad := reachAvoidingEdges(fn, pc.(ssa.Instruction), nil, func(in ssa.Instruction) bool {
-				ci, ok := in.(ssa.CallInstruction)
-				return ok && (CalleeName(ci) == "iface:stack.TransportDispatcher.DeliverTransportPacket" || CalleeName(ci) == "(*ipv4.endpoint).handleICMP")
-			}, func(e Edge) bool {
-				return strings.Contains(e.Atom, "(*fragmentation.Fragmentation).Process(") && strings.HasSuffix(e.Atom, "#1") && e.Holds
-			})
-			c.Check(bad == nil, f4, FuncName(fn)+"/incomplete-delivers-nothing", c.pos(pc), "nothing is delivered unless Process reported ready", "a path delivers although Process did not report a complete datagram")
-		}
-		// not-fragment path must skip Process entirely: literal atoms exist
-		atoms := map[string]bool{}
-		for _, e := range CondEdges(fn) {
-			atoms[e.Atom] = true
-		}
-		c.Check(atoms[sub(m, "({MF} == 0)")[0]] && atoms[sub(m, "(0 == {OFF})")[0]], f4, FuncName(fn)+"/tests-mf-and-offset", c.P.Pos(fn.Pos()), "tests the MF bit and the fragment offset", "no longer tests both the MF bit and the fragment offset")
-	}
+	ipv4InboundRule(c, f4)
 
 	f6 := c.Rule("F6", "K9 site table (exact guards)", "RFC 815 hole bookkeeping", 4)
 	if fn := c.Fn(f6, fr+"updateHoles"); fn != nil {
@@ -320,5 +288,61 @@ func fragmentKeyRule(c *Ctx, f4 string) {
 			"((((header.IPv4.SourceAddress($0)[1] << 8) | header.IPv4.SourceAddress($0)[0]) | (header.IPv4.SourceAddress($0)[2] << 16)) | (header.IPv4.SourceAddress($0)[3] << 24))",
 			"((((header.IPv4.DestinationAddress($0)[1] << 8) | header.IPv4.DestinationAddress($0)[0]) | (header.IPv4.DestinationAddress($0)[2] << 16)) | (header.IPv4.DestinationAddress($0)[3] << 24))",
 			"hash.hashIV"}, N: 1, Why: "id and protocol in one word (disjoint bit ranges), all four source bytes, all four destination bytes"}})
+	}
+	// the mixing function itself must look at all three key words
+	if fn := c.Fn(f4, "hash.Hash3Words"); fn != nil {
+		for _, st := range Sites(fn) {
+			if st.Kind != "return" || len(st.Args) != 1 {
+				continue
+			}
+			for i, what := range []string{"$0 (id/protocol word)", "$1 (source word)", "$2 (destination word)"} {
+				par := "$" + itoa(i)
+				c.Check(strings.Contains(st.Args[0], par+" ") || strings.Contains(st.Args[0], "("+par), f4, FuncName(fn)+"/mixes:"+par, c.pos(st.Instr), "the hash depends on "+what, "the hash no longer depends on "+what+": datagrams differing only there share a reassembly queue")
+			}
+		}
+	}
+}
+
+// ipv4InboundRule: what ipv4.HandlePacket hands up - after validation the IP
+// header is removed by ITS OWN length (options included), the payload is capped
+// to total length - header length on every path (fragments too: link padding
+// never enters reassembly or a datagram), fragments go through reassembly with
+// first/last/more from the header, and the (reassembled) payload is delivered
+// under the header's protocol. Shared by C08 (F4), C11 (U12: a UDP datagram is
+// delivered byte for byte) and C13 (I8: an echo request's payload is what was
+// sent).
+func ipv4InboundRule(c *Ctx, f4 string) {
+	if fn := c.Fn(f4, "(*ipv4.endpoint).HandlePacket"); fn != nil {
+		m := map[string]string{"VV": "$2", "VVP": "new(buffer.VectorisedView)@3", "VVR": "new(buffer.VectorisedView)@u", "H": "buffer.VectorisedView.First({VV})", "OFF": "header.IPv4.FragmentOffset({H})", "MF": "(1 & header.IPv4.Flags({H}))", "VALID": "header.IPv4.IsValid({H}, buffer.VectorisedView.Size({VV}))"}
+		c.CheckSites(f4, fn, []SiteSpec{
+			{Kind: "call", Target: "(*fragmentation.Fragmentation).Process", Args: sub(m, "$0.fragmentation", "hash.IPv4FragmentHash({H})", "{OFF}", "((buffer.VectorisedView.Size({VVP}) + {OFF}) - 1)", "({MF} != 0)", "{VVP}"), Guards: sub(m, "{VALID}"), N: 1, Why: "first = fragment offset, last = offset + size - 1, more = MF bit, key from this header"},
+			{Kind: "call", Target: "(*buffer.VectorisedView).TrimFront", Args: sub(m, "&new(buffer.VectorisedView)", "header.IPv4.HeaderLength({H})"), Guards: sub(m, "{VALID}"), N: 1, Why: "IP header removed (header length) after validation"},
+			{Kind: "call", Target: "(*buffer.VectorisedView).CapLength", Args: sub(m, "&new(buffer.VectorisedView)", "(header.IPv4.TotalLength({H}) - header.IPv4.HeaderLength({H}))"), Guards: sub(m, "{VALID}"), N: 1, Why: "payload capped to total length - header length"},
+			{Kind: "call", Target: "iface:stack.TransportDispatcher.DeliverTransportPacket", Args: sub(m, "$0.dispatcher", "$1", "header.IPv4.TransportProtocol({H})", "{VVR}"), Guards: sub(m, "{VALID}"), N: 1, Why: "delivery of the (possibly reassembled) payload"},
+		})
+		for _, pc := range c.Calls(fn, Is("(*fragmentation.Fragmentation).Process"), false) {
+			// fragment path exactly when MF set or offset != 0
+			ok := GuardedBy(fn, pc.Block(), AnyOf(AtomIs(false, Exactly(sub(m, "({MF} == 0)")[0])), AtomIs(false, Exactly(sub(m, "(0 == {OFF})")[0]))))
+			c.Check(ok, f4, FuncName(fn)+"/fragment-detection", c.pos(pc), "reassembly path taken only when MF!=0 or offset!=0", "reassembly path not guarded by MF!=0 || offset!=0")
+			// and delivery of a fragment only after ready
+			for _, dc := range c.Calls(fn, Is("iface:stack.TransportDispatcher.DeliverTransportPacket", "(*ipv4.endpoint).handleICMP"), false) {
+				ok := ReachAvoiding(fn, pc.(ssa.Instruction), nil, func(in ssa.Instruction) bool { return in == dc.(ssa.Instruction) }) != nil
+				_ = ok
+			}
+			// on the fragment path a not-ready result returns without delivering
+			bad := reachAvoidingEdges(fn, pc.(ssa.Instruction), nil, func(in ssa.Instruction) bool {
+				ci, ok := in.(ssa.CallInstruction)
+				return ok && (CalleeName(ci) == "iface:stack.TransportDispatcher.DeliverTransportPacket" || CalleeName(ci) == "(*ipv4.endpoint).handleICMP")
+			}, func(e Edge) bool {
+				return strings.Contains(e.Atom, "(*fragmentation.Fragmentation).Process(") && strings.HasSuffix(e.Atom, "#1") && e.Holds
+			})
+			c.Check(bad == nil, f4, FuncName(fn)+"/incomplete-delivers-nothing", c.pos(pc), "nothing is delivered unless Process reported ready", "a path delivers although Process did not report a complete datagram")
+		}
+		// not-fragment path must skip Process entirely: literal atoms exist
+		atoms := map[string]bool{}
+		for _, e := range CondEdges(fn) {
+			atoms[e.Atom] = true
+		}
+		c.Check(atoms[sub(m, "({MF} == 0)")[0]] && atoms[sub(m, "(0 == {OFF})")[0]], f4, FuncName(fn)+"/tests-mf-and-offset", c.P.Pos(fn.Pos()), "tests the MF bit and the fragment offset", "no longer tests both the MF bit and the fragment offset")
 	}
 }
